@@ -125,3 +125,35 @@ func vpCleanup() {
 	}
 	vpTempFiles = nil
 }
+
+// vpAbstractKeyLike: a key with the same type and key material as orig (so the
+// same RFC 7638 thumbprint) but its own algorithm declaration and key id.
+func vpAbstractKeyLike(orig jwk.Key, hasAlg bool, algKind int, algName, kid string) jwk.Key {
+	key, err := orig.Clone()
+	if err != nil {
+		vpOutside("cannot clone the key natively: " + err.Error())
+	}
+	key.Remove(jwk.AlgorithmKey)
+	key.Remove(jwk.KeyIDKey)
+	if hasAlg {
+		var realKind int
+		switch jwa.KeyAlgorithmFrom(algName).(type) {
+		case jwa.SignatureAlgorithm:
+			realKind = 0
+		case jwa.KeyEncryptionAlgorithm:
+			realKind = 1
+		default:
+			realKind = 2
+		}
+		if realKind != algKind {
+			vpOutside("the library never gives this algorithm name this kind")
+		}
+		if err := key.Set(jwk.AlgorithmKey, algName); err != nil {
+			vpOutside("cannot set alg natively: " + err.Error())
+		}
+	}
+	if kid != "" {
+		key.Set(jwk.KeyIDKey, kid)
+	}
+	return key
+}
